@@ -53,3 +53,35 @@ def search_all(deadline, rng, tier='quick'):
                 if mode == 'deltaparse':
                     break     # the XML stage cannot be reached when the parser already crashes
     return out
+
+
+# ---- large well-formed modules ("every well-formed module is accepted without diagnostics", up to the 256 KiB of the property)
+LARGE = {
+    'small functions': 'fn f(a: i32) -> i32\n{\n\tvar x = a + 1;\n\treturn: x\n}\n\n',
+    'commented constants': '// a constant with a comment in front of it\nconst LIMIT_OF_SOMETHING: usize = 0x10_00;\n',
+    'structures': 'struct Pair\n{\n\tfirst: i32,\n\tsecond: &[]u8,\n}\n\n',
+    'dense statements': 'fn g()\n{\n\tvar a = 1;\n\ta = a + a * a;\n}\n',     # 18 tokens in 38 bytes: 0.47 per byte, below the budget of 0.5
+}
+
+
+def search_large(deadline, rng):
+    """one witness or None: modules of 100, 150, 200 and 250 KiB built by repeating a well-formed declaration (between 0.15 and 0.47
+    tokens per byte, so below the lexer's budget of one token per two bytes; up to ~120000 tokens) are accepted by lexer and parser"""
+    if replayrun.build()[0] is None:
+        return None
+    for what, unit in LARGE.items():
+        for kib in (100, 150, 200, 250):
+            if time.time() > deadline:
+                return None
+            n = kib * 1024 // len(unit)
+            spec = dict(prefix='', open=unit, mid='', close='', suffix='', n=n)
+            data = gen(spec)
+            r = replayrun.run('deltaparse', data, timeout=60)
+            if r.get('status') in ('timeout', 'build-failed', 'unknown'):
+                continue
+            if r.get('status') != 'ok' or r['result'].get('lex_errors') != '0' or r['result'].get('parse_errors') != '0':
+                return {'mode': 'deltaparse', 'input_gen': spec, 'input_utf8_lossy': data[:160].decode() + ' ... (%d bytes, %d copies)' % (len(data), n), 'observed': r,
+                        'expected': 'a well-formed module of %d bytes (%d copies of %s) is accepted without diagnostics' % (len(data), n, what),
+                        'expect_result': {'lex_errors': '0', 'parse_errors': '0'},
+                        'how': 'replay_runner deltaparse <file>; the input is `open` repeated n times (input_gen)'}
+    return None
